@@ -75,6 +75,15 @@ func c01Cells(tier string) []Cell {
 						cells = append(cells, Cell{ID: k.ID()})
 					}
 
+					// Two keys are being updated in the background one after the other, then a forced refresh of the second:
+					// whatever the library shares between the two updates, the second key is still being built only once.
+					if (sc == "o" || sc == "f") && init == "S" {
+						r := c
+						r.Init, r.FailC, r.Callout = "SS", "00", false
+						r.Threads = [][]GOp{{{Key: 0}, {Key: 1}}, {{Key: 1, Skip: true}}}
+						cells = append(cells, Cell{ID: r.ID()})
+					}
+
 					// The backend answers one of its calls with an unexpected error (a transport fault), at every position:
 					// whatever a Get does then, it does not build next to a build that is in flight.
 					if sc == "o" || sc == "f" {
